@@ -18,16 +18,17 @@ Scn == <<
   << <<"execjob", "deployuser", "status", "statusbad">>, <<"sign">>, <<"estimate">>, <<"sign", "send">>, <<"relayerr">>,
      <<"attesterr", "createjob", "tfcreate">>, <<"sign", "execjob">>, <<"estimate", "tfmint">>, <<"sign">>, <<"relayok">>,
      <<"attestsplit", "keepalive">>, <<"banksend", "status">> >>,
-  \* 2: skyway: pool, cancel, claims; crosses height 250 (snapshot build, batch creation, metrics, jail sweep)
+  \* 2: skyway: pool, cancel, claims; starts at 290, crosses height 300 with its 10th block (snapshot build, batch creation,
+  \*    metrics, jail sweep, external balance requests) and 303
   << <<"send", "deposit">>, <<"send", "delegate">>, <<"lightsale", "feediff">>, <<"cancel", "send">>, <<"execjob">>, <<"sign">>,
-     <<"estimate">>, <<"sign">>, <<"statusbad">>, <<>>, <<"batchest", "sign">>, <<"confirm", "estimate">>, <<"batchclaim">>, <<"relayerr">> >>,
+     <<"estimate">>, <<"sign">>, <<"statusbad", "claims2">>, <<>>, <<"batchest", "sign">>, <<"confirm", "estimate">>, <<"batchclaim">>, <<"relayerr", "claims2">> >>,
   \* 3: paloma light nodes, token factory, valset / treasury records, user contracts
   << <<"lnregister", "tfcreate", "status">>, <<"lnauth", "tfmint", "statusbad">>, <<"extinfo", "keepalive">>, <<"feediff">>,
      <<"uploaduser", "createjob">>, <<"deployuser", "execjob">>, <<"sign">>, <<"estimate">>, <<"fee", "sign">>, <<"relayok">>, <<"attesterr">> >>,
-  \* 4: starts at 296: crosses 300 (external balance requests, pruning) and 303 (chain-info jail sweep)
+  \* 4: starts at 296: crosses 300 (external balance requests, pruning) and 303 (chain-info jail sweep) with evidence in flight
   << <<"execjob", "send">>, <<"sign">>, <<"estimate">>, <<"sign">>, <<"balances">>, <<"refblock", "relayerr">>, <<"attesterr">>, <<"balances", "statusbad">>, <<"sign">> >>
 >>
-Start == <<240, 240, 240, 296>>
+Start == <<280, 290, 280, 296>>
 
 StepOf(l) == CASE l.act = "Restart"  -> [act |-> "Restart", args |-> [n |-> 0]]
                [] l.act = "Query"    -> [act |-> "Query", args |-> [k |-> l.arg]]
